@@ -1,5 +1,6 @@
 import AranyaV.Props.C22
-import AranyaV.Proofs.CompileLayout
+import AranyaV.Proofs.CompileCalls
+import AranyaV.Proofs.LowerCalls
 /-!
 # C24 — Policies the compiler accepts do not go wrong
 
@@ -17,12 +18,13 @@ Full statement (see DESIGN.md 6/C24):
 
 Proved here:
 
-* `resolve_no_unresolved_partial` — after a successful `compileProgram` no `Branch/Jump/Call/Recall`
-  carries an `Unresolved` target (the "succeeds" and "< |progmem|" parts are not proved: the tie
-  compares the model's listing with the real compiler's on every accepted sample program).
-* `resolve_labels_distinct` — the duplicate-label failure of `define_label` cannot occur (all
-  constructs).  Still not proved: every referenced label is defined (so `resolve_targets` cannot
-  fail) and every target is `< |progmem|`.
+* `resolve_total` / `resolve_total_lowered` — `compileProgram` succeeds on every program
+  `lowerProgram` accepts (more generally: distinct function names, every called user function
+  declared), no `Branch/Jump/Call/Recall` of the image carries an `Unresolved` target, and every
+  resolved target is `< |progmem|`.  All constructs, unconditional.
+* `resolve_no_unresolved_partial`, `resolve_labels_distinct`, `labels_distinct` — the parts
+  (no unresolved target after any successful `compileProgram`; the duplicate-label failure of
+  `define_label` cannot occur).
 * `sp_discipline` — for `return e` in any activation: the VM reaches `RestoreSP`
   with `v :: junk ++ base` on the stack and the saved pointer `|base|` on the call stack, so the
   "callable has consumed too many stack values" error cannot occur, and the instruction leaves
@@ -38,10 +40,8 @@ Proved here:
 namespace AranyaV.Lang
 open AranyaV.Gen.Lang
 
-/-- the unresolved label an instruction still carries, if any -/
-def instrLabel : Instr → Option Label
-  | .Branch (.Unresolved l) | .Jump (.Unresolved l) | .Call (.Unresolved l) | .Recall (.Unresolved l) => some l
-  | _ => none
+/- `instrLabel i` (Proofs/CompileTargets): the unresolved label an instruction still carries, if
+any; `instrRes i`: the resolved target it carries, if any. -/
 
 theorem resolveInstr_resolved {labels i i'} (h : resolveInstr labels i = some i') : instrLabel i' = none := by
   cases i <;> simp only [resolveInstr, Option.some.injEq, Option.map_eq_some_iff] at h
@@ -108,6 +108,29 @@ construct (`good_all`). -/
 theorem resolve_labels_distinct (sd : Defs) (funs : List FunDef) (hn : (funs.map (·.name)).Nodup) :
     labelsDistinct (compileUnresolved sd funs).defs = true :=
   labels_never_collide sd funs hn
+
+/-- **resolve_total**: for any function list with distinct names in which every called user
+function is declared (`CallsDeclared`; both are enforced by lowering, see
+`resolve_total_lowered`), `compileProgram` succeeds — neither the duplicate-label check nor
+`resolve_targets` can fail — no instruction of the result carries an unresolved target, and every
+resolved `Branch/Jump/Call/Recall` target is `< |progmem|`.  All constructs of the fragment. -/
+theorem resolve_total (sd : Defs) (funs : List FunDef) (hn : (funs.map (·.name)).Nodup)
+    (hc : CallsDeclared funs) :
+    ∃ cp, compileProgram sd funs = some cp ∧
+      (∀ i ∈ cp.prog, instrLabel i = none) ∧
+      (∀ i ∈ cp.prog, ∀ n, instrRes i = some n → n < cp.prog.length) := by
+  obtain ⟨cp, hcp, hlt⟩ := resolve_total_calls sd funs hn hc
+  exact ⟨cp, hcp, resolve_no_unresolved_partial hcp, hlt⟩
+
+/-- **resolve_total for accepted programs**: whatever `lowerProgram` (the model of lower.rs)
+accepts, the code generator's label resolution cannot fail on: `compileProgram` returns a program
+image with no unresolved target and every target inside the image.  Unconditional. -/
+theorem resolve_total_lowered {mods : List (Nat × List FfiSig)} {ffi : Nat → Nat → List Val → FfiRes}
+    {sp : SProgram} {p : Program} (h : lowerProgram mods ffi sp = some p) :
+    ∃ cp, compileProgram p.structs p.funs = some cp ∧
+      (∀ i ∈ cp.prog, instrLabel i = none) ∧
+      (∀ i ∈ cp.prog, ∀ n, instrRes i = some n → n < cp.prog.length) :=
+  resolve_total p.structs p.funs (lowerProgram_funs h).1 (lowerProgram_funs h).2
 
 /-- **sp_discipline**: `return e` in any activation.  If `e` evaluates to `v`, the VM stands at the
 `RestoreSP` with `v` on top of the temporaries `junk` and the entry stack `base`, the saved stack
